@@ -26,7 +26,9 @@ RULE = ('assign: systems of 1-6 molecules (1-8 residues of 1-3 atoms, sparse inc
         'the selected molecules differ in residue count or the sequence is per-residue for the whole selection. '
         'dssp-enum: all strings over {H,C} up to length 12 (quick) / 16 (thorough), enumerated completely; non-trivial = at least '
         'two helical runs. dssp-random: strings over 123HGIBETSC up to length 60; non-trivial = two helical runs separated by a '
-        'single residue. dssp-system: 2-5 molecules, each fully / not / partly annotated with its own DSSP string, translated by one '
+        'single residue. assign-molecule: one molecule of 1-8 residues through annotate_residues_from_sequence or '
+        'AnnotateResidues.run_molecule with a sequence of the right length, one element, or a wrong length, of equal or distinct '
+        'elements; non-trivial = a wrong length with all elements equal. dssp-system: 2-5 molecules, each fully / not / partly annotated with its own DSSP string, translated by one '
         'AnnotateMartiniSecondaryStructures.run_system call (optionally twice); non-trivial = a molecule that ends in a helix is '
         'followed by one that starts with a helix.')
 ASSUMPTIONS = [
@@ -121,6 +123,74 @@ def _strategy_dssp_random(tier):
     )
     seq = st.one_of(st.lists(piece, max_size=12).map(''.join), st.text(alphabet=alphabet, max_size=60))
     return st.fixed_dictionaries({'seq': seq, 'via_molecule': st.booleans(), 'atoms_per_res': st.integers(1, 3)})
+
+
+def _strategy_assign_molecule(tier):
+    return st.fixed_dictionaries({
+        'residues': st.lists(st.integers(1, 3), min_size=1, max_size=8),
+        'len_mode': st.sampled_from(['equal', 'equal', 'one', 'short', 'long', 'double', 'empty']),
+        'letters': st.sampled_from(['same', 'same', 'mixed']),
+        'via': st.sampled_from(['function', 'processor', 'processor-not-selected']),
+        'resid0': st.sampled_from([1, 5, 9998]), 'key0': st.sampled_from([0, 3]), 'keystep': st.sampled_from([1, 2]),
+        'preset': st.booleans(),
+    })
+
+
+def _run_assign_molecule(case):
+    """The per-molecule entry points (annotate_residues_from_sequence, AnnotateResidues.run_molecule): k-th element to the
+    k-th residue, a one-element sequence is repeated, any other length mismatch is an error -- whatever the sequence holds."""
+    from vermouth.dssp.dssp import annotate_residues_from_sequence
+    nres = len(case['residues'])
+    mol = Molecule()
+    key = case['key0']
+    layout = []
+    for ridx, natoms in enumerate(case['residues']):
+        row = []
+        for a in range(natoms):
+            attrs = dict(atomname='A%d' % a, resname='ALA', resid=(case['resid0'] + ridx) % 10000, chain='A')
+            if case['preset']:
+                attrs['secstruct'] = 'old'
+            mol.add_node(key, **attrs)
+            row.append(key)
+            key += case['keystep']
+        layout.append(row)
+    n = {'equal': nres, 'one': 1, 'short': nres - 1, 'long': nres + 1, 'double': 2 * nres, 'empty': 0}[case['len_mode']]
+    if case['letters'] == 'same':
+        seq = ['C'] * n
+    else:
+        seq = ['HCETS'[i % 5] + str(i) for i in range(n)]
+    if n == nres:
+        expect = seq
+    elif n == 1:
+        expect = seq * nres
+    else:
+        expect = 'error'
+    selected = case['via'] != 'processor-not-selected'
+    before = {k: mol.nodes[k].get('secstruct', '<<absent>>') for k in mol.nodes}
+    try:
+        if case['via'] == 'function':
+            annotate_residues_from_sequence(mol, 'secstruct', seq)
+        else:
+            AnnotateResidues('secstruct', seq, molecule_selector=lambda m: selected).run_molecule(mol)
+    except ValueError:
+        if expect != 'error' or not selected:
+            raise Violation('molecule-assign-rejected', 'sequence of %d elements rejected for a molecule of %d residues' % (n, nres))
+        if {k: mol.nodes[k].get('secstruct', '<<absent>>') for k in mol.nodes} != before:
+            raise Violation('molecule-assign-partial', 'ValueError raised but attributes were changed')
+        return Outcome(['length-error', 'letters-' + case['letters']], case['letters'] == 'same')
+    if not selected:
+        if {k: mol.nodes[k].get('secstruct', '<<absent>>') for k in mol.nodes} != before:
+            raise Violation('molecule-assign-unselected-touched', 'a molecule the selector rejects was modified')
+        return Outcome(['not-selected'], False)
+    if expect == 'error':
+        raise Violation('molecule-assign-accepted-mismatch', 'sequence %r (%d elements) accepted for a molecule of %d residues; '
+                        'attributes now %r' % (seq, n, nres, [mol.nodes[row[0]].get('secstruct') for row in layout]))
+    for ridx, row in enumerate(layout):
+        for k in row:
+            if mol.nodes[k].get('secstruct') != expect[ridx]:
+                raise Violation('molecule-assign-misplaced', 'residue %d atom %r: got %r, expected %r' % (
+                    ridx, k, mol.nodes[k].get('secstruct'), expect[ridx]))
+    return Outcome(['assigned', 'letters-' + case['letters']], False)
 
 
 def _strategy_dssp_system(tier):
@@ -462,6 +532,8 @@ PARTS = [
     Part('dssp-enum', _run_enum, enumerate=_enum_dssp),
     Part('dssp-random', _run_dssp_random, strategy=_strategy_dssp_random, examples={'quick': 4000, 'thorough': 100000},
          floors={'runs-separated-by-one': 0.05, 'has-long-helix': 0.1, 'via-molecule': 0.2}),
+    Part('assign-molecule', _run_assign_molecule, strategy=_strategy_assign_molecule, examples={'quick': 1600, 'thorough': 40000},
+         floors={'length-error': 0.2, 'assigned': 0.2}),
     Part('dssp-system', _run_dssp_system, strategy=_strategy_dssp_system, examples={'quick': 1600, 'thorough': 40000},
          floors={'helix-at-both-sides-of-a-molecule-boundary': 0.1}),
 ]
